@@ -26,8 +26,28 @@ def tagname(i):
     return 'tag%02d' % i
 
 
+#: every tag collection the code under test handed to the harness during the current run (a sink argument, a returned
+#: current_tags), with its value at that moment: what was delivered must not change afterwards (no aliasing of internal state)
+RETAINED = []
+
+
 def tagnums(s):
-    return sorted(int(x[3:]) for x in s)
+    r = sorted(int(x[3:]) for x in s)
+    if isinstance(s, (set, frozenset, list)) and len(RETAINED) < 4000:
+        RETAINED.append((s, r))
+    return r
+
+
+def retained_changed():
+    """True when a tag collection delivered earlier in this run has changed since it was delivered"""
+    return any(sorted(int(x[3:]) for x in s) != r for s, r in RETAINED)
+
+
+def scribble_on_retained():
+    """the client mutates every mutable tag collection it was given (it owns them)"""
+    for s, _ in RETAINED:
+        if isinstance(s, set):
+            s.add('tag99')
 
 
 def unchars(cs):
@@ -389,6 +409,7 @@ class Graph:
     """the Python objects of a shape: root, leaves left to right"""
 
     def __init__(self, shape, genuine=False):
+        del RETAINED[:]
         self.k = K()
         self.genuine = genuine
         self.leaves = []
